@@ -1,9 +1,13 @@
 package main
 
+import "golang.org/x/tools/go/ssa"
+
 func init() { register("C02", checkC02) }
 
 // C02 — AOL write authorization.
 func checkC02(p *Prog, r *Report) {
+	checkNoDroppedErrors(p, r, "C02", "x/aol/keeper, x/aol/types", func(fn *ssa.Function) bool { return InPkgs(fn, "x/aol/keeper", "x/aol/types") })
+	checkNoNilWrap(p, r, "C02", "x/aol/keeper, x/aol/types", func(fn *ssa.Function) bool { return InPkgs(fn, "x/aol/keeper", "x/aol/types") })
 	r.Explain = "Decided statically: D1 every AOL store mutation in a message handler is dominated (all paths) by the membership/existence guard on the same key datum (HasTopic/HasWriter with the polarity the schema requires); D2 the identity that authorises (owner component of the written keys; for add-record the writer component of the dominating HasWriter key) is parsed from a message field that GetSigners returns on every path; D3 mutators are called only from handlers and InitGenesis; D4 accessor families agree on prefix and key type so the guard and the delete address the same store key; D5 the ante chain contains ValidateBasic -> SetPubKey -> SigVerification -> IncrementSequence in this order and is installed by New."
 	r.NotDec = []string{"SigVerificationDecorator / authz MsgExec / baseapp per-message cache behaviour", "rejected attempt leaves state unchanged (baseapp cache branch)"}
 	r.Trusted = []string{"cosmos-sdk v0.47.12 x/auth/ante, baseapp, authz"}
